@@ -231,13 +231,15 @@ GenAttrClauses(cur, e) ==
 (* the two independently built models; e.ret holds == both ways, !=, hash  *)
 (* agreement and x == x for the models and for every pair of features,     *)
 (* relations and constraints.                                              *)
-PairClauses(p, q, expected) ==
+\* caseonly: the two sides differ in the letter case of constraint names only - the one situation
+\* where the statement allows either answer, so only the answer-independent clauses apply
+PairClauses(p, q, expected, caseonly) ==
   << <<p \o ".refl", q.refl>>,
      <<p \o ".sym",  q.eq = q.qe>>,
      <<p \o ".ne",   q.ne = ~q.eq>>,
      <<p \o ".hash", q.eq => q.h>>,
-     <<p \o ".perm", expected => q.eq>>,
-     <<p \o ".edit", ~expected => ~q.eq>> >>
+     <<p \o ".perm", caseonly \/ (expected => q.eq)>>,
+     <<p \o ".edit", caseonly \/ (~expected => ~q.eq)>> >>
 CompareClauses(cur, e) ==
   LET a == e.post
       b == e.other
@@ -251,13 +253,13 @@ CompareClauses(cur, e) ==
      <<"C20.compare.left",  a = cur.model>>,
      <<"C20.compare.right", SpecEq(b, cur.other) /\ SameBag(b.feats, cur.other.feats)>> >>
   \o Guarded(ok,
-       PairClauses("C20.model", R.model, SpecEq(a, b))
+       PairClauses("C20.model", R.model, SpecEq(a, b), e.args.how = "casectc" /\ a.ctcs # <<>>)
        \o Concat([k \in DOMAIN R.feats |-> PairClauses("C20.feature", R.feats[k],
-                      a.feats[R.feats[k].i].name = b.feats[R.feats[k].j].name)])
+                      a.feats[R.feats[k].i].name = b.feats[R.feats[k].j].name, FALSE)])
        \o Concat([k \in DOMAIN R.rels |-> PairClauses("C20.relation", R.rels[k],
-                      RelEq(a.rels[R.rels[k].i], b.rels[R.rels[k].j]))])
+                      RelEq(a.rels[R.rels[k].i], b.rels[R.rels[k].j]), FALSE)])
        \o Concat([k \in DOMAIN R.ctcs |-> PairClauses("C20.constraint", R.ctcs[k],
-                      a.ctcs[R.ctcs[k].i].ast = b.ctcs[R.ctcs[k].j].ast)]))
+                      a.ctcs[R.ctcs[k].i].ast = b.ctcs[R.ctcs[k].j].ast, e.args.how = "casectc")]))
 
 ---------------------------------------------------------------------------
 (* Serialisation and round trips (C01, C05-C08, C12, C02).                 *)
@@ -372,14 +374,17 @@ ExportClauses(cur, e) ==
       ok == frag /\ e.out = "value" /\ R.parsed
       ids == CASE lang = "splot" -> SplotIds(d) [] lang = "pl" -> PLVars(d) [] OTHER -> ClaferNames(d)
       cfg == CASE lang = "splot" -> SplotConfigs(d) [] lang = "pl" -> PLConfigs(d) [] OTHER -> ClaferConfigs(d)
+      nested == lang = "splot" /\ ModelHasRawRight(m)
   IN
   << <<"C12.pure." \o lang, e.anom = <<>> /\ e.post = m>>,
-     <<p \o "total",  frag => e.out = "value">>,
-     <<p \o "parses", frag /\ e.out = "value" => R.parsed>> >>
+     <<p \o "total",  frag => e.out = "value", Why("dep-nested", nested)>>,
+     <<p \o "parses", frag /\ e.out = "value" => R.parsed, Why("dep-nested", nested)>> >>
   \o Guarded(ok,
-  << <<p \o "allfeatures", ids = Names(m) /\ (lang = "splot" => NoDup(d.ids)) /\ (lang = "clafer" => d.inst = m.root)>>,
+  << <<p \o "allfeatures", ids = Names(m) /\ (lang = "splot" => NoDup(d.ids)) /\ (lang = "clafer" => d.inst = m.root),
+          Why("dep-nested", nested)>>,
      <<p \o "sameconfigs", ids = Names(m) => cfg = Configs(m),
-          Why("dep-simplify", lang = "splot" /\ ids = Names(m) /\ ModelHasDepOps(m) /\ cfg = Configs(DepModel(m)))>> >>)
+          IF nested THEN "dep-nested"
+          ELSE Why("dep-simplify", lang = "splot" /\ ids = Names(m) /\ ModelHasDepOps(m) /\ cfg = Configs(DepModel(m)))>> >>)
   \o Guarded(ok /\ lang = "clafer",
   << <<"C11.ids.attrs", \* every attribute used is declared, with the same spelling
           \A i \in DOMAIN d.nodes : \A k \in DOMAIN d.nodes[i].attrs :
